@@ -259,23 +259,32 @@ pub struct OwnedRb {
     pub un_store: Vec<std::mem::MaybeUninit<u8>>,
     pub pre: Vec<u8>,
     pub uninit: bool,
+    pub extra_init: usize,
 }
 impl OwnedRb {
     pub fn new(pre: Vec<u8>, cap: usize, uninit: bool) -> Self {
         let n = pre.len() + cap;
-        OwnedRb { init_store: vec![0xDD; n], un_store: vec![std::mem::MaybeUninit::new(0xDD); n], pre, uninit }
+        OwnedRb { init_store: vec![0xDD; n], un_store: vec![std::mem::MaybeUninit::new(0xDD); n], pre, uninit, extra_init: 0 }
     }
     pub fn readbuf(&mut self) -> ReadBuf<'_> {
         let mut rb = if self.uninit { ReadBuf::uninit(&mut self.un_store) } else { ReadBuf::new(&mut self.init_store) };
         rb.put_slice(&self.pre);
+        if self.extra_init > 0 {
+            // an initialised (zeroed) part strictly inside the unfilled tail
+            rb.initialize_unfilled_to(self.extra_init);
+        }
         rb
     }
 }
 pub fn take_rb(c: &mut Cur) -> OwnedRb {
     let pre = c.take_list();
     let cap = c.next() as usize;
-    let uninit = c.next() != 0;
-    OwnedRb::new(pre, cap, uninit)
+    let flag = c.next() as usize;
+    let mut o = OwnedRb::new(pre, cap, flag != 0);
+    if flag >= 2 {
+        o.extra_init = std::cmp::min(flag - 1, cap);
+    }
+    o
 }
 pub fn enc_rb(out: &mut Vec<i128>, rb: &ReadBuf<'_>) {
     enc_bytes(out, rb.filled());
